@@ -91,7 +91,7 @@ MIN = {
     'thorough': {'lock_cases': 4600, 'lock_convergence_verdicts': 4000,
                  'pub_fail_xlock': 4300, 'pub_fail_slock': 4300,
                  'pub_fail_injected': 4300, 'atomic_batches': 800,
-                 'fault_positions_raise': 7000,
+                 'fault_positions_raise': 6500,
                  'fault_positions_kill': 7000, 'threshold_cases': 80,
                  'threshold_recoveries': 80,
                  'sync_checks_no_failure': 5000, 'batch_changed_pri': 700},
